@@ -39,12 +39,15 @@ class Lex(object):
         dfas = compile_refs(items)
         self.ref_trivia = dfas[:len(self.sp["trivia"])]
         self.ref = dict(zip(self.ref_names, dfas[len(self.sp["trivia"]):]))
-        self.cur = {}
+        self.cur = {}       # language as written (longest-match reading of the pattern)
+        self.cur_lf = {}    # language the runtime lexer really uses: strings on which the regex crate's leftmost-first
+                            # `find` matches completely (gramfacts `lf_dfa`); equal to the former for most patterns
         self.cur_entry = {}
         for e in self.entries:
             if e["skip"]:
                 continue
             self.cur[e["terminal"]] = e["dfa"]
+            self.cur_lf[e["terminal"]] = e.get("lf_dfa", e["dfa"])
             self.cur_entry[e["terminal"]] = e
 
     def where(self, e):
@@ -106,12 +109,31 @@ def rules(ctx, rep, prop, parts):
             if name not in lex.ref:
                 rep.fail("A10.i", "%s|A10.i|extra|%s" % (prop, name), W(lex.cur_entry[name]), "token class %s is not in the reference lexical specification" % name)
         rep.floor("A10.i", "token classes compared", n, 34)
+    if "tokenizer" in parts:
+        # exact comparison of the two tokenizers (class of every string), with the leftmost-first semantics of the regex crate
+        cur = []
+        for e in lex.entries:
+            cur.append(("<skip>" if e["skip"] else e["terminal"], e.get("lf_dfa", e["dfa"]), e["precedence"]))
+        ngroups = len(sp["groups"])
+        ref = [("<skip>", d, 2 * ngroups) for d in lex.ref_trivia]
+        for gi, g in enumerate(sp["groups"]):
+            for name, (kind, val) in g.items():
+                ref.append((name, lex.ref[name], 2 * (ngroups - gi) + (1 if kind == "literal" else 0)))
+        have_lf = all("lf_dfa" in e for e in lex.entries)
+        rep.check(have_lf, "A10.vi", "%s|A10.vi|lf-missing" % prop, "src/aidl.lalrpop (match block)", "gramfacts must export the leftmost-first language of every pattern (lf_dfa)")
+        diff = D.tokenizer_difference(cur, ref)
+        nonlm = [e["terminal"] or e["pattern"] for e in lex.entries if e.get("leftmost_first", {}).get("equals_longest") is False]
+        rep.check(diff is None, "A10.vi", "%s|A10.vi|tokenizer|%s" % (prop, (diff[0] if diff else "")), "src/aidl.lalrpop (match block)",
+                  "the lexer (every pattern matched with the regex crate's leftmost-first `find`, longest overall match wins, ties by match-block priority) must classify every string like the reference lexical specification; "
+                  "%r is lexed as %s by the grammar and as %s by the reference" % ((diff[0], diff[1], diff[2]) if diff else ("-", "-", "-")),
+                  witness={"string": diff[0], "grammar": diff[1], "reference": diff[2]} if diff else None,
+                  sample={"classes": len(cur), "patterns whose leftmost-first match is not the longest one (harmless when the tokenizers agree)": nonlm})
     if "priority" in parts:
         names = [n for n in lex.cur if n in lex.ref]
         pairs = 0
         for i, a in enumerate(names):
             for b in names[i + 1:]:
-                w = D.intersection_witness(lex.cur[a], lex.cur[b])
+                w = D.intersection_witness(lex.cur_lf[a], lex.cur_lf[b])
                 if w is None:
                     continue
                 pairs += 1
@@ -132,13 +154,13 @@ def rules(ctx, rep, prop, parts):
     if "keywords" in parts:
         ident = sp["identifier_class"]
         K = set(sp["keywords"])
-        idd = lex.cur.get(ident)
+        idd = lex.cur_lf.get(ident)
         if idd is None:
             rep.fail("A10.iv", "%s|A10.iv|no-ident" % prop, None, "identifier class %s missing" % ident)
         else:
             ip = lex.cur_entry[ident]["precedence"]
             covered = set()
-            for name, d in lex.cur.items():
+            for name, d in lex.cur_lf.items():
                 if name == ident:
                     continue
                 inter = D.product(d, idd)
@@ -173,6 +195,13 @@ def rules(ctx, rep, prop, parts):
                     continue
                 cur = lex.cur.get(name)
                 words = D.enumerate_finite(cur) if cur else None
+                lfw = D.enumerate_finite(lex.cur_lf.get(name)) if cur else None
+                if name != "RESERVED_KEYWORD":
+                    # word classes the parser depends on must be matched in full at run time (leftmost-first)
+                    rep.check(lfw == sorted(val), "A10.v", "%s|A10.v|%s|leftmost-first" % (prop, name), W(lex.cur_entry[name]) if cur else None,
+                              "class %s: with the regex crate's leftmost-first alternation the pattern %r matches completely only %r, not %r (an earlier alternative that is a prefix of a later one shadows it)" % (
+                                  name, lex.cur_entry[name]["pattern"] if cur else None, lfw, sorted(val)),
+                              witness={"word_lost": sorted(set(val) - set(lfw or []))} if lfw != sorted(val) else None)
                 rep.check(words == sorted(val), "A10.v", "%s|A10.v|%s" % (prop, name), W(lex.cur_entry[name]) if cur else None,
                           "class %s must be exactly the words %r; it is %r" % (name, sorted(val), words), sample={"class": name, "words": words})
     return lex
